@@ -1,4 +1,26 @@
 // Unit c50_encapsulation -- property C50 "Objects are encapsulated by their blueprint"
+// Real code (bodies extracted verbatim from /repo):
+//   radix-engine/src/system/system.rs (SystemService): drop_object (tail after kernel_drop_node cut, R9), globalize,
+//     globalize_with_address_internal (WHOLE body, 5 loops), get_reservation_address, new_object, get_object_info, current_actor,
+//     get_outer_object, get_actor_object_id, get_blueprint_info, get_actor_info, get_actor_field_info, get_actor_collection_partition_info,
+//     is_feature_enabled, actor_open_field (tail after the open cut, R9), TryFrom<ActorStateHandle> for ActorStateRef, and the
+//     forwarding impls kernel_drop_node / kernel_create_node_from / kernel_read_substate / kernel_close_substate / kernel_set_substate
+//   radix-engine/src/system/actor.rs: Actor::{instance_context, blueprint_id, package_address, get_object_id}, MethodActor::get_blueprint_id,
+//     MethodType::module_id;  radix-engine-interface: ObjectInfo::{is_global, try_get_outer_object}, AttachedModuleId::static_blueprint,
+//     ModuleId::base_partition_num, From<AttachedModuleId> for ModuleId, From<ModuleId> for Option<AttachedModuleId>;
+//     radix-common PartitionNumber::at_offset; system_substates.rs FieldSubstate::{new_field, new_unlocked_field}
+// Method: "sensitive callee". The ghost kernel (env trait SystemBasedKernelApi) knows, for every live node, the type info
+// TypeInfoBlueprint::get_type returns, and the current actor. Its dangerous primitives carry property C50 as PRECONDITION:
+//   kernel_drop_node            requires drop_permitted      (object: allowed_drop(info, actor); or an emptied shell of a globalization)
+//   kernel_create_node_from     requires globalize_permitted (every source node: not-yet-global object of the actor's PACKAGE, or module-blueprint object)
+//   kernel_set_substate         requires type_info_write_permitted (type info: only phantom -> object of the reserved blueprint, by its package)
+//   kernel_open_substate(_with_default) with FIELD lock data requires field_access_permitted (actor's own object or its outer object)
+//   new_object_internal (system.rs, NOT extracted) requires allowed_create (actor's package; actor's instance context)
+// so every extracted path that reaches one of them is proved to have made the access check first. The oracles are written
+// from the property statement over the Actor / ObjectInfo data types (running_blueprint, acting_outer_object, own_object), and
+// the real Actor accessor functions are proved to compute exactly them.
+// NOTE on the statement: drop is checked at BLUEPRINT level, globalize and create at PACKAGE level ("only the package can
+// globalize a node", system.rs) -- the oracles say package where the code says package; see props.frag.json.
 use vstd::prelude::*;
 /// sbor `btreemap!` (sbor/src/rust.rs): a BTreeMap built by successive inserts
 macro_rules! btreemap {
@@ -8,13 +30,15 @@ macro_rules! btreemap {
         temp
     }};
 }
+/// radix-rust `indexset!()` (only the empty form is used by the code under contract)
+macro_rules! indexset { () => { index_set_new() }; }
 verus! {
 /*@include shims/rt.rs @*/
 /*@include shims/c35_ordered_indexmap.rs @*/
 
 pub mod env {
     use vstd::prelude::*;
-    use super::unit::{Actor, ObjectInfo, BlueprintId, SystemService, InstanceContext, AttachedModuleId, ModuleId};
+    use super::unit::{Actor, ObjectInfo, BlueprintId, BlueprintInfo, SystemService, InstanceContext, AttachedModuleId, ModuleId, PartitionNumber, PartitionOffset, MethodType, OuterObjectInfo, FieldSubstate};
     pub use super::omap::IndexMap;
     use super::omap::has_key;
 
@@ -88,11 +112,49 @@ pub mod env {
     #[verifier::external_body]
     #[verifier::reject_recursive_types(T)]
     pub struct IndexSet<T> { x: core::marker::PhantomData<T> }
+    impl IndexSet<String> {
+        #[verifier::external_body]
+        pub fn contains(&self, value: &str) -> (r: bool) { unimplemented!() }
+    }
+    #[verifier::external_body]
+    pub fn index_set_new<T>() -> (r: IndexSet<T>) { unimplemented!() }
+    impl Default for BlueprintVersion {
+        #[verifier::external_body]
+        fn default() -> (r: Self) { unimplemented!() }
+    }
     /// what shims/c35_ordered_indexmap.rs lacks (indexmap docs: `contains_key` = some entry has an equal key;
     /// `keys()` iterates the keys in insertion order; radix-rust `index_map_new()` = empty map)
     impl<K, V> IndexMap<K, V> {
         #[verifier::external_body]
         pub fn contains_key(&self, key: &K) -> (r: bool) ensures r == has_key(self.entries(), *key) { unimplemented!() }
+    }
+    impl<K, V> IndexMap<K, V> {
+        #[verifier::external_body]
+        pub fn keys(&self) -> (r: Keys<'_, K, V>)
+            ensures r.rest().len() == self.entries().len(),
+                    forall|i: int| 0 <= i < self.entries().len() ==> *(#[trigger] r.rest()[i]) == self.entries()[i].0,
+        { unimplemented!() }
+    }
+    #[verifier::external_body]
+    #[verifier::reject_recursive_types(K)]
+    #[verifier::reject_recursive_types(V)]
+    pub struct Keys<'a, K, V> { k: core::marker::PhantomData<&'a (K, V)> }
+    impl<'a, K, V> Keys<'a, K, V> { pub uninterp spec fn rest(&self) -> Seq<&'a K>; }
+    impl<'a, K, V> Iterator for Keys<'a, K, V> {
+        type Item = &'a K;
+        #[verifier::external_body]
+        fn next(&mut self) -> (r: Option<&'a K>) { unimplemented!() }
+    }
+    impl<'a, K, V> vstd::std_specs::iter::IteratorSpecImpl for Keys<'a, K, V> {
+        open spec fn obeys_prophetic_iter_laws(&self) -> bool { true }
+        open spec fn remaining(&self) -> Seq<&'a K> { self.rest() }
+        open spec fn will_return_none(&self) -> bool { true }
+        open spec fn peek(&self, index: int) -> Option<&'a K> { if 0 <= index < self.rest().len() { Some(self.rest()[index]) } else { None } }
+        open spec fn decrease(&self) -> Option<nat> { Some(self.rest().len()) }
+    }
+    /// an IndexMap holds every key once (indexmap invariant)
+    pub open spec fn distinct_keys<K, V>(s: Seq<(K, V)>) -> bool {
+        forall|i: int, j: int| 0 <= i < j < s.len() ==> (#[trigger] s[i]).0 != (#[trigger] s[j]).0
     }
     #[verifier::external_body]
     pub fn index_map_new<K, V>() -> (r: IndexMap<K, V>) ensures r.entries() == Seq::<(K, V)>::empty() { unimplemented!() }
@@ -120,10 +182,6 @@ pub mod env {
     #[verifier::external_body]
     pub struct KeyValueStoreInfo { x: u8 }
     // ---- substates, partitions ------------------------------------------------------------------------
-    #[derive(Clone, Copy)]
-    pub struct PartitionNumber(pub u8);
-    #[derive(Clone, Copy)]
-    pub struct PartitionOffset(pub u8);
     pub const TYPE_INFO_FIELD_PARTITION: PartitionNumber = /*@expr-after radix-engine-interface/src/types/node_layout.rs :: const TYPE_INFO_FIELD_PARTITION :: <<PartitionNumber =>> @*/;
     pub const SCHEMAS_PARTITION: PartitionNumber = /*@expr-after radix-engine-interface/src/types/node_layout.rs :: const SCHEMAS_PARTITION :: <<PartitionNumber =>> @*/;
     pub const METADATA_BASE_PARTITION: PartitionNumber = /*@expr-after radix-engine-interface/src/types/node_layout.rs :: const METADATA_BASE_PARTITION :: <<PartitionNumber =>> @*/;
@@ -183,9 +241,32 @@ pub mod env {
 
     #[derive(Clone, Copy)]
     pub struct LockFlags { pub bits: u32 }
-    impl LockFlags { pub const MUTABLE: LockFlags = LockFlags { bits: 1 }; }
-    /// system_callback.rs SystemLockData without the payloads (only `Default` is constructed by the code under contract)
-    pub enum SystemLockData { KeyValueEntry, Field, Default }
+    /// bitflags! LockFlags (radix-engine-interface/src/api/field_api.rs)
+    impl LockFlags {
+        pub const MUTABLE: LockFlags = LockFlags { bits: 1 };
+        pub const UNMODIFIED_BASE: LockFlags = LockFlags { bits: 2 };
+        pub const FORCE_WRITE: LockFlags = LockFlags { bits: 4 };
+        pub open spec fn has(self, o: LockFlags) -> bool { self.bits & o.bits == o.bits }
+        pub fn contains(&self, other: LockFlags) -> (r: bool) ensures r == self.has(other) { self.bits & other.bits == other.bits }
+    }
+    /// system_callback.rs SystemLockData / FieldLockData; the key-value payloads are not constructed by the code under contract
+    pub enum SystemLockData { KeyValueEntry(KeyValueEntryLockData), Field(FieldLockData), Default }
+    #[verifier::external_body]
+    pub struct KeyValueEntryLockData { x: u8 }
+    pub enum FieldLockData { Read, Write { target: BlueprintTypeTarget, field_index: u8 } }
+    /// system_type_checker.rs
+    pub enum SchemaValidationMeta { ExistingObject { additional_schemas: NodeId }, Blueprint }
+    pub struct BlueprintTypeTarget { pub blueprint_info: BlueprintInfo, pub meta: SchemaValidationMeta }
+    #[verifier::external_body]
+    pub struct ScryptoValue { x: Vec<u8> }
+    #[verifier::external_body]
+    pub fn scrypto_decode<T>(buf: &[u8]) -> (r: Result<T, DecodeError>)
+        ensures match dec::<T>(buf@) { Some(t) => r == Ok::<T, DecodeError>(t), None => r is Err }
+    { unimplemented!() }
+    pub const FUNGIBLE_VAULT_BLUEPRINT: &'static str = "FungibleVault";
+    /// the image of the one `panic!` in get_actor_field_info (see the @subst there): abort
+    #[verifier::external_body]
+    pub fn panic_abort() -> ! { unimplemented!() }
 
     // ---- system state reachable through kernel_get_system_state().system (not part of the ghost state) ----
     #[verifier::external_body]
@@ -208,6 +289,40 @@ pub mod env {
         #[verifier::external_body]
         pub fn num_logical_partitions(&self) -> (r: u8) ensures r == self.n_logical(), r <= 192 { unimplemented!() }
     }
+    /// radix-blueprint-schema-init
+    pub enum Condition { Always, IfFeature(String), IfOuterFeature(String) }
+    pub enum FieldTransience { NotTransient, TransientStatic { default_value: Vec<u8> } }
+    pub enum PartitionDescription { Logical(PartitionOffset), Physical(PartitionNumber) }
+    pub struct FieldSchema { pub condition: Condition, pub transience: FieldTransience }
+    impl IndexedStateSchema {
+        /// blueprints/package/substates.rs, not under contract. ASSUMED of installed definitions: logical offsets stay below 192
+        /// (no u8 overflow from a module base, the real code `expect`s it), a transient field's default value is valid SBOR
+        /// (the real code unwraps its decoding)
+        #[verifier::external_body]
+        pub fn field(&self, field_index: u8) -> (r: Option<(PartitionDescription, FieldSchema)>)
+            ensures r matches Some(t) ==> (t.0 matches PartitionDescription::Logical(o) ==> o.0 < 192)
+                && (t.1.transience matches FieldTransience::TransientStatic { default_value } ==> dec::<ScryptoValue>(default_value@) is Some)
+        { unimplemented!() }
+    }
+    #[derive(Clone, Copy)]
+    pub enum BlueprintPartitionType { KeyValueCollection, IndexCollection, SortedIndexCollection }
+    impl PartialEq for BlueprintPartitionType {
+        #[verifier::external_body]
+        fn eq(&self, other: &Self) -> (r: bool) ensures r == (*self == *other) { unimplemented!() }
+    }
+    impl vstd::std_specs::cmp::PartialEqSpecImpl for BlueprintPartitionType {
+        open spec fn obeys_eq_spec() -> bool { true }
+        open spec fn eq_spec(&self, other: &Self) -> bool { *self == *other }
+    }
+    /// `x.to_owned()` for T: Clone is a clone (only used to fill an error value)
+    pub assume_specification<T: Clone>[<T as std::borrow::ToOwned>::to_owned](_0: &T) -> T;
+    impl IndexedStateSchema {
+        /// blueprints/package/substates.rs, not under contract; same ASSUMPTION on logical offsets as `field`
+        #[verifier::external_body]
+        pub fn get_partition(&self, collection_index: u8) -> (r: Option<(PartitionDescription, BlueprintPartitionType)>)
+            ensures r matches Some(t) ==> (t.0 matches PartitionDescription::Logical(o) ==> o.0 < 192)
+        { unimplemented!() }
+    }
     pub struct BlueprintInterface { pub is_transient: bool, pub state: IndexedStateSchema }
     pub struct BlueprintDefinition { pub interface: BlueprintInterface }
     impl<'a, Y: SystemBasedKernelApi> SystemService<'a, Y> {
@@ -217,6 +332,10 @@ pub mod env {
             ensures final(self).api.st() == old(self).api.st(),
                     *final(final(self).api) == *final(old(self).api),
                     r matches Err(e) ==> e is Environment,
+                    // ASSUMED of the three native object-module blueprints (Metadata: 1 collection; ComponentRoyalty, RoleAssignment:
+                    // fields + 1 collection): at least one logical partition, and no more than fit before the next module's base
+                    r matches Ok(d) ==> forall|m: AttachedModuleId| blueprint_id == #[trigger] module_blueprint(m)
+                        ==> 1 <= d.interface.state.n_logical() <= module_room(m),
         { unimplemented!() }
     }
 
@@ -250,6 +369,10 @@ pub mod env {
         NotAnObject,
         InvalidDropAccess(Box<super::unit::InvalidDropAccess>),
         InvalidActorStateHandle,
+        InvalidLockFlags,
+        FieldDoesNotExist(BlueprintId, u8),
+        CollectionIndexDoesNotExist(BlueprintId, u8),
+        CollectionIndexIsOfWrongType(BlueprintId, u8, BlueprintPartitionType, BlueprintPartitionType),
         InvalidGlobalAddressReservation,
         NotAnAddressReservation,
         InvalidGlobalizeAccess(Box<super::unit::InvalidGlobalizeAccess>),
@@ -318,6 +441,25 @@ pub mod env {
             _ => None,
         }
     }
+    pub open spec fn outer_of(info: ObjectInfo) -> Option<GlobalAddress> {
+        match info.blueprint_info.outer_obj_info { OuterObjectInfo::Some { outer_object } => Some(outer_object), OuterObjectInfo::None => None }
+    }
+    /// C50, state: "the current actor's own object" -- the receiver of the running method together with the module
+    /// the method belongs to (None = the object's own blueprint state), or the receiver of a blueprint hook
+    pub open spec fn own_object(a: Actor) -> Option<(NodeId, Option<AttachedModuleId>)> {
+        match a {
+            Actor::Method(m) => Some((m.node_id, match m.method_type { MethodType::Module(x) => Some(x), _ => None })),
+            Actor::BlueprintHook(h) => match h.receiver { Some(n) => Some((n, None)), None => None },
+            _ => None,
+        }
+    }
+    /// C50, state: the only nodes whose FIELDS the running code may open -- its own object, or (main module only) the outer
+    /// object recorded in its own object's type info
+    pub open spec fn field_access_permitted(s: KState, n: NodeId) -> bool {
+        own_object(s.actor) matches Some(own) && (n == own.0
+            || (own.1 is None && s.type_info.contains_key(own.0)
+                && (s.type_info[own.0] matches TypeInfoSubstate::Object(info) && outer_of(info) == Some(GlobalAddress(n)))))
+    }
     pub open spec fn is_proof(id: BlueprintId) -> bool {
         id == (BlueprintId { package_address: RESOURCE_PACKAGE, blueprint_name: string_of(FUNGIBLE_PROOF_BLUEPRINT) })
         || id == (BlueprintId { package_address: RESOURCE_PACKAGE, blueprint_name: string_of(NON_FUNGIBLE_PROOF_BLUEPRINT) })
@@ -362,6 +504,20 @@ pub mod env {
     pub open spec fn globalize_permitted(s: KState, partitions: Map<PartitionNumber, (NodeId, PartitionNumber)>) -> bool {
         forall|p: PartitionNumber| #[trigger] partitions.contains_key(p) ==> globalize_source_ok(s, partitions[p].0)
     }
+    /// node_layout.rs: first partition of an attached module, and how many partitions lie before the next module's base
+    pub open spec fn module_base(m: AttachedModuleId) -> u8 {
+        match m { AttachedModuleId::Metadata => 2u8, AttachedModuleId::Royalty => 3u8, AttachedModuleId::RoleAssignment => 5u8 }
+    }
+    pub open spec fn module_room(m: AttachedModuleId) -> u8 {
+        match m { AttachedModuleId::Metadata => 1u8, AttachedModuleId::Royalty => 2u8, AttachedModuleId::RoleAssignment => 59u8 }
+    }
+    /// C50, type info: the system rewrites the type info of a node only to turn the PHANTOM of a reserved address into an
+    /// object of exactly the reserved blueprint, for code of that blueprint's package
+    pub open spec fn type_info_write_permitted(s: KState, n: NodeId, v: IndexedScryptoValue) -> bool {
+        s.type_info.contains_key(n) && (s.type_info[n] matches TypeInfoSubstate::GlobalAddressPhantom(ph)
+            && (ti_of(v) matches Some(TypeInfoSubstate::Object(info)) && info.blueprint_info.blueprint_id == ph.blueprint_id
+                && Some(ph.blueprint_id.package_address) == actor_package(s.actor)))
+    }
     pub open spec fn same_but_handles(s0: KState, s1: KState) -> bool {
         s1.type_info == s0.type_info && s1.actor == s0.actor && s1.consumed == s0.consumed
     }
@@ -404,8 +560,26 @@ pub mod env {
                                 || exists|p: PartitionNumber| #[trigger] partitions@.contains_key(p) && partitions@[p].0 == n),
                 r matches Err(e) ==> e is Environment && final(self).st() == old(self).st();
 
+        /// SENSITIVE for state access: a substate is opened with FIELD lock data (what field_read / field_write / field_lock
+        /// accept) only on a node C50 lets the running code read and write
+        fn kernel_open_substate_with_default<F: FnOnce() -> IndexedScryptoValue>(&mut self, node_id: &NodeId, partition_num: PartitionNumber,
+                substate_key: &SubstateKey, flags: LockFlags, default: Option<F>, lock_data: SystemLockData) -> (r: Result<SubstateHandle, RuntimeError>)
+            requires
+                default matches Some(f) ==> f.requires(()),
+                lock_data is Field ==> field_access_permitted(old(self).st(), *node_id),
+            ensures
+                same_but_handles(old(self).st(), final(self).st()),
+                r matches Ok(h) ==> !old(self).st().handles.contains_key(h)
+                    && final(self).st().handles == old(self).st().handles.insert(h, (*node_id, partition_num, *substate_key)),
+                r matches Err(e) ==> e is Environment && final(self).st() == old(self).st();
+
+        fn kernel_mark_substate_as_transient(&mut self, node_id: NodeId, partition_num: PartitionNumber, key: SubstateKey) -> (r: Result<(), RuntimeError>)
+            ensures final(self).st() == old(self).st(), r matches Err(e) ==> e is Environment;
+
         fn kernel_open_substate(&mut self, node_id: &NodeId, partition_num: PartitionNumber, substate_key: &SubstateKey,
                 flags: LockFlags, lock_data: SystemLockData) -> (r: Result<SubstateHandle, RuntimeError>)
+            requires
+                lock_data is Field ==> field_access_permitted(old(self).st(), *node_id),
             ensures
                 same_but_handles(old(self).st(), final(self).st()),
                 r matches Ok(h) ==> !old(self).st().handles.contains_key(h)
@@ -427,6 +601,16 @@ pub mod env {
             ensures
                 same_but_handles(old(self).st(), final(self).st()),
                 r is Ok ==> final(self).st().handles == old(self).st().handles.remove(lock_handle),
+                r matches Err(e) ==> e is Environment && final(self).st() == old(self).st();
+
+        /// SENSITIVE: overwriting field 0 of the type-info partition changes what a node IS
+        fn kernel_set_substate(&mut self, node_id: &NodeId, partition_num: PartitionNumber, substate_key: SubstateKey, value: IndexedScryptoValue) -> (r: Result<(), RuntimeError>)
+            requires partition_num == TYPE_INFO_FIELD_PARTITION ==> substate_key == SubstateKey::Field(0u8) && type_info_write_permitted(old(self).st(), *node_id, value)
+            ensures
+                final(self).st().actor == old(self).st().actor,
+                final(self).st().handles == old(self).st().handles,
+                final(self).st().consumed == old(self).st().consumed,
+                r is Ok ==> final(self).st().type_info == (if partition_num == TYPE_INFO_FIELD_PARTITION { old(self).st().type_info.insert(*node_id, ti_of(value)->Some_0) } else { old(self).st().type_info }),
                 r matches Err(e) ==> e is Environment && final(self).st() == old(self).st();
     }
 
@@ -491,6 +675,8 @@ pub mod env {
         #[verifier::external_body]
         pub fn kernel_open_substate(&mut self, node_id: &NodeId, partition_num: PartitionNumber, substate_key: &SubstateKey,
                 flags: LockFlags, lock_data: SystemLockData) -> (r: Result<SubstateHandle, RuntimeError>)
+            requires
+                lock_data is Field ==> field_access_permitted(old(self).api.st(), *node_id),
             ensures
                 *final(final(self).api) == *final(old(self).api),
                 same_but_handles(old(self).api.st(), final(self).api.st()),
@@ -520,16 +706,17 @@ pub mod env {
         { unimplemented!() }
     }
 
-    /// what is cut from globalize_with_address_internal by @drop-tail (after kernel_create_node_from succeeded): rewriting
-    /// the new global node's type info to ObjectType::Global{modules} and dropping the emptied shells of `node_id` / the modules
+    /// what is cut from actor_open_field by @drop-tail (after the substate was opened): for a MUTABLE open, reading the lock
+    /// status and returning FieldLocked for a locked field -- that guard is property C51 (unit c51_locked_state)
     impl<'a, Y: SystemBasedKernelApi> SystemService<'a, Y> {
         #[verifier::external_body]
-        pub fn globalize_tail(&mut self, node_id: NodeId, modules: IndexMap<AttachedModuleId, NodeId>, object_info: ObjectInfo, global_address: GlobalAddress) -> (r: Result<GlobalAddress, RuntimeError>)
+        pub fn open_field_lock_check_tail(&mut self, handle: SubstateHandle, object_handle: ActorStateHandle, field_index: u8, flags: LockFlags) -> (r: Result<SubstateHandle, RuntimeError>)
             ensures *final(final(self).api) == *final(old(self).api),
-                    final(self).api.st().actor == old(self).api.st().actor,
-                    r matches Ok(a) ==> a == global_address,
+                    final(self).api.st() == old(self).api.st(),
+                    r matches Ok(h) ==> h == handle,
         { unimplemented!() }
     }
+
 
     /// what is cut from drop_object by @drop-tail: turning the dropped node's MAIN_BASE_PARTITION fields into payload bytes
     #[verifier::external_body]
@@ -540,7 +727,14 @@ pub mod unit {
     use vstd::prelude::*;
     use super::rt::*;
     use super::env::*;
+    use std::rc::Rc;
 
+    /*@item radix-common/src/types/node_and_substate.rs :: struct PartitionNumber
+    @derive Clone, Copy
+    @*/
+    /*@item radix-common/src/types/node_and_substate.rs :: struct PartitionOffset
+    @derive Clone, Copy
+    @*/
     /*@item radix-common/src/types/blueprint_id.rs :: struct BlueprintId
     @derive
     @*/
@@ -562,6 +756,25 @@ pub mod unit {
     /*@item radix-engine-interface/src/api/object_api.rs :: enum AttachedModuleId
     @derive Clone, Copy
     @*/
+    /*@item radix-engine/src/system/system_substates.rs :: enum LockStatus
+    @derive Copy, Clone
+    @*/
+    /*@item radix-engine/src/system/system_substates.rs :: struct FieldSubstateV1
+    @derive
+    @*/
+    /*@item radix-engine/src/system/system_substates.rs :: enum FieldSubstate
+    @derive
+    @*/
+    impl<V> FieldSubstate<V> {
+        /*@fn radix-engine/src/system/system_substates.rs :: impl<V> FieldSubstate<V> :: fn new_field
+        @sig
+            ensures ret == FieldSubstate::V1(FieldSubstateV1 { payload, lock_status })
+        @*/
+        /*@fn radix-engine/src/system/system_substates.rs :: impl<V> FieldSubstate<V> :: fn new_unlocked_field
+        @sig
+            ensures ret == FieldSubstate::V1(FieldSubstateV1 { payload, lock_status: LockStatus::Unlocked })
+        @*/
+    }
     /*@item radix-engine/src/system/actor.rs :: struct InstanceContext
     @derive
     @*/
@@ -641,7 +854,7 @@ pub mod unit {
     impl ModuleId {
         /*@fn radix-engine-interface/src/api/object_api.rs :: impl ModuleId :: fn base_partition_num
         @sig
-            ensures ret.0 <= 64
+            ensures ret.0 == (match *self { ModuleId::Main => 64u8, ModuleId::Metadata => 2u8, ModuleId::Royalty => 3u8, ModuleId::RoleAssignment => 5u8 })
         @*/
     }
     impl MethodType {
@@ -655,18 +868,6 @@ pub mod unit {
         @sig
             ensures ret == module_blueprint(*self)
         @*/
-    }
-    pub open spec fn outer_of(info: ObjectInfo) -> Option<GlobalAddress> {
-        match info.blueprint_info.outer_obj_info { OuterObjectInfo::Some { outer_object } => Some(outer_object), OuterObjectInfo::None => None }
-    }
-    /// C50, state: "the current actor's own object" -- the receiver of the running method together with the module
-    /// the method belongs to (None = the object's own blueprint state), or the receiver of a blueprint hook
-    pub open spec fn own_object(a: Actor) -> Option<(NodeId, Option<AttachedModuleId>)> {
-        match a {
-            Actor::Method(m) => Some((m.node_id, match m.method_type { MethodType::Module(x) => Some(x), _ => None })),
-            Actor::BlueprintHook(h) => match h.receiver { Some(n) => Some((n, None)), None => None },
-            _ => None,
-        }
     }
     impl MethodActor {
         /*@fn radix-engine/src/system/actor.rs :: impl MethodActor :: fn get_blueprint_id
@@ -723,6 +924,22 @@ pub mod unit {
                 && (s.type_info[own.0] matches TypeInfoSubstate::Object(info) && outer_of(info) == Some(GlobalAddress(id.0))),
         }
     }
+    /// the node behind an actor state handle, without the module
+    pub open spec fn actor_state_node(s: KState, r: ActorStateRef, n: NodeId) -> bool {
+        own_object(s.actor) matches Some(own) && match r {
+            ActorStateRef::SELF => n == own.0,
+            ActorStateRef::OuterObject => own.1 is None && s.type_info.contains_key(own.0)
+                && (s.type_info[own.0] matches TypeInfoSubstate::Object(info) && outer_of(info) == Some(GlobalAddress(n))),
+        }
+    }
+    /// the blueprint info the system associates with (node, module): the node's own for the main module, the static module blueprint otherwise
+    pub open spec fn info_matches(s: KState, n: NodeId, m: Option<AttachedModuleId>, bi: BlueprintInfo) -> bool {
+        match m {
+            None => s.type_info.contains_key(n) && (s.type_info[n] matches TypeInfoSubstate::Object(info) && info.blueprint_info == bi),
+            Some(module) => bi.blueprint_id == module_blueprint(module) && bi.outer_obj_info is None,
+        }
+    }
+    pub open spec fn is_new_handle(s0: KState, s1: KState, h: SubstateHandle) -> bool { s1.handles.contains_key(h) && !s0.handles.contains_key(h) }
     /// C50, create: what `new_object(blueprint_ident, ..)` may bring into existence for the running actor
     pub open spec fn created_by(info: ObjectInfo, actor: Actor, blueprint_ident: &str) -> bool {
         &&& running_blueprint(actor) matches Some(own)
@@ -763,6 +980,21 @@ pub mod unit {
         &&& s.type_info.contains_key(node_id) && (s.type_info[node_id] matches TypeInfoSubstate::Object(info) && info.object_type is Owned
                 && Some(info.blueprint_info.blueprint_id.package_address) == actor_package(s.actor))
         &&& forall|i: int| 0 <= i < mods.len() ==> module_ok(s, #[trigger] mods[i])
+    }
+    /// what a successful globalize leaves behind: the shell of `node_id` is gone and the reserved address now holds an
+    /// object with the SAME blueprint info (blueprint, outer object, features, generics) as the globalized node, typed Global
+    pub open spec fn globalized_result(s0: KState, s1: KState, node_id: NodeId, addr: GlobalAddress) -> bool {
+        &&& !s1.type_info.contains_key(node_id)
+        &&& s1.type_info.contains_key(addr.0)
+        &&& s1.type_info[addr.0] matches TypeInfoSubstate::Object(gi) && gi.object_type is Global
+                && s0.type_info[node_id] is Object && gi.blueprint_info == s0.type_info[node_id]->Object_0.blueprint_info
+    }
+    /// partition-map bookkeeping of globalize_with_address_internal: the entry that witnesses "this node was moved"
+    pub open spec fn w_main(p: Map<PartitionNumber, (NodeId, PartitionNumber)>, n: NodeId) -> bool {
+        p.contains_key(SCHEMAS_PARTITION) && p[SCHEMAS_PARTITION].0 == n
+    }
+    pub open spec fn w_mod(p: Map<PartitionNumber, (NodeId, PartitionNumber)>, e: (AttachedModuleId, NodeId)) -> bool {
+        p.contains_key(PartitionNumber(module_base(e.0))) && p[PartitionNumber(module_base(e.0))].0 == e.1
     }
     /// loop-carried facts of globalize_with_address_internal: actor fixed, the package check has passed
     pub open spec fn pre_ok(s0: KState, s1: KState, res: NodeId) -> bool {
@@ -847,6 +1079,18 @@ pub mod unit {
                 ret matches Err(e) ==> e is Environment && final(self).api.st() == old(self).api.st(),
         @*/
 
+        /*@fn radix-engine/src/system/system.rs :: impl<'a, Y: SystemBasedKernelApi> KernelSubstateApi<SystemLockData> for SystemService<'a, Y> :: fn kernel_set_substate
+        @sig
+            requires partition_num == TYPE_INFO_FIELD_PARTITION ==> substate_key == SubstateKey::Field(0u8) && type_info_write_permitted(old(self).api.st(), *node_id, value)
+            ensures
+                *final(final(self).api) == *final(old(self).api),
+                final(self).api.st().actor == old(self).api.st().actor,
+                final(self).api.st().handles == old(self).api.st().handles,
+                final(self).api.st().consumed == old(self).api.st().consumed,
+                ret is Ok ==> final(self).api.st().type_info == (if partition_num == TYPE_INFO_FIELD_PARTITION { old(self).api.st().type_info.insert(*node_id, ti_of(value)->Some_0) } else { old(self).api.st().type_info }),
+                ret matches Err(e) ==> e is Environment && final(self).api.st() == old(self).api.st(),
+        @*/
+
         // ---- (2) globalize ---------------------------------------------------------------------------------
         /*@fn radix-engine/src/system/system.rs :: impl<'a, Y: SystemBasedKernelApi> SystemService<'a, Y> :: fn globalize_with_address_internal
         @sig
@@ -855,10 +1099,12 @@ pub mod unit {
                 // the node handed in as reservation is not an object (callers: `globalize` checks it -- proved below)
                 !(old(self).api.st().type_info.contains_key(global_address_reservation.0.0) && old(self).api.st().type_info[global_address_reservation.0.0] is Object),
                 old(self).api.st().consumed.is_empty(),
+                distinct_keys(modules.entries()),
             ensures
                 *final(final(self).api) == *final(old(self).api),
                 final(self).api.st().actor == old(self).api.st().actor,
-                ret matches Ok(addr) ==> globalize_authorized(old(self).api.st(), node_id, modules.entries(), global_address_reservation.0.0, addr),
+                ret matches Ok(addr) ==> globalize_authorized(old(self).api.st(), node_id, modules.entries(), global_address_reservation.0.0, addr)
+                    && globalized_result(old(self).api.st(), final(self).api.st(), node_id, addr),
                 // a valid reservation for a blueprint of ANOTHER package: InvalidGlobalizeAccess (unless the kernel failed first)
                 (reservation_target(old(self).api.st(), global_address_reservation.0.0) matches Some(t) && Some(t.1.package_address) != actor_package(old(self).api.st().actor))
                     ==> (ret matches Err(e) && (e is Environment || e == invalid_globalize_error(reservation_target(old(self).api.st(), global_address_reservation.0.0)->Some_0.1, old(self).api.st().actor))),
@@ -866,10 +1112,12 @@ pub mod unit {
             let ghost s0 = self.api.st();
             let ghost res = global_address_reservation.0.0;
             let ghost main_node = node_id;
+            let ghost ents = modules.entries();
         @closure 1 := |x: &BTreeMap<SubstateKey, IndexedScryptoValue>| -> (r: Option<&IndexedScryptoValue>) ensures match r { Some(v) => x@.contains_key(SubstateKey::Field(0u8)) && *v == x@[SubstateKey::Field(0u8)], None => !x@.contains_key(SubstateKey::Field(0u8)) }
         @closure 2 := |x: &IndexedScryptoValue| -> (r: Option<TypeInfoSubstate>) ensures r == ti_of(*x)
         @before <<let mut partitions>> #1
             let ghost s1 = self.api.st();
+            let ghost info0 = object_info;
             proof {
                 assert(s1.type_info == s0.type_info.remove(res));
                 assert(globalize_source_ok(s1, node_id));
@@ -880,28 +1128,67 @@ pub mod unit {
                 self.api.st() == s1, *final(self.api) == *final(old(self).api), pre_ok(s0, s1, res), s0 == old(self).api.st(), res == global_address_reservation.0.0,
                 globalize_source_ok(s1, node_id),
                 globalize_permitted(s1, partitions@),
+                w_main(partitions@, node_id),
         @loop 2 iter it
             invariant
                 self.api.st() == s1, *final(self.api) == *final(old(self).api), pre_ok(s0, s1, res), s0 == old(self).api.st(), res == global_address_reservation.0.0,
                 globalize_permitted(s1, partitions@),
-                it.seq().len() == modules.entries().len(),
-                forall|i: int| 0 <= i < modules.entries().len() ==> *(#[trigger] it.seq()[i]).0 == modules.entries()[i].0 && *it.seq()[i].1 == modules.entries()[i].1,
-                forall|i: int| 0 <= i < it.index@ ==> module_ok(s1, #[trigger] modules.entries()[i]),
+                ents == modules.entries(), distinct_keys(ents),
+                it.seq().len() == ents.len(),
+                forall|i: int| 0 <= i < ents.len() ==> *(#[trigger] it.seq()[i]).0 == ents[i].0 && *it.seq()[i].1 == ents[i].1,
+                forall|i: int| 0 <= i < it.index@ ==> module_ok(s1, #[trigger] ents[i]),
+                w_main(partitions@, main_node),
+                forall|i: int| 0 <= i < it.index@ ==> w_mod(partitions@, #[trigger] ents[i]),
         @before <<let module_id: ModuleId>> #1
+            let ghost att = *module_id;
+            let ghost idx = it.index@ as int;
             proof {
-                assert(blueprint_id == module_blueprint(*module_id));
+                assert(blueprint_id == module_blueprint(att));
                 assert(is_module_blueprint(blueprint_id));
                 assert(s1.type_info.contains_key(*node_id));
                 assert(globalize_source_ok(s1, *node_id));
-                assert(module_ok(s1, (*module_id, *node_id)));
+                assert(module_ok(s1, (att, *node_id)));
+                assert(ents[idx] == (att, *node_id));
             }
-        @loop 3
+        @loop 3 iter it3
             invariant
-                num_logical_partitions <= 192, module_base_partition.0 <= 64,
+                num_logical_partitions <= 192, module_base_partition.0 == module_base(att),
+                1 <= num_logical_partitions <= module_room(att),
+                it3.seq().len() == num_logical_partitions as int,
                 self.api.st() == s1, *final(self.api) == *final(old(self).api), pre_ok(s0, s1, res), s0 == old(self).api.st(), res == global_address_reservation.0.0,
                 globalize_source_ok(s1, *node_id),
                 globalize_permitted(s1, partitions@),
-        @drop-tail <<self.kernel_create_node_from(global_address.into(), partitions)?;>> #1 => return self.globalize_tail(node_id, modules, object_info, global_address);
+                distinct_keys(ents), 0 <= idx < ents.len(), ents[idx] == (att, *node_id),
+                w_main(partitions@, main_node),
+                forall|i: int| 0 <= i < idx ==> w_mod(partitions@, #[trigger] ents[i]),
+                it3.index@ > 0 ==> w_mod(partitions@, (att, *node_id)),
+        @before <<self.kernel_create_node_from(>> #1
+            let ghost pm = partitions@;
+        @after <<self.kernel_create_node_from(>> #1
+            let ghost s2 = self.api.st();
+            proof {
+                assert(pm.contains_key(SCHEMAS_PARTITION));
+                assert(s2.consumed.contains(main_node));
+                assert forall|i: int| 0 <= i < ents.len() implies s2.consumed.contains((#[trigger] ents[i]).1) by {
+                    assert(w_mod(pm, ents[i]));
+                    assert(pm.contains_key(PartitionNumber(module_base(ents[i].0))));
+                }
+            }
+        @loop 4 iter it4
+            invariant
+                self.api.st() == s2, *final(self.api) == *final(old(self).api), pre_ok(s0, s1, res), s0 == old(self).api.st(), res == global_address_reservation.0.0,
+        @loop 5 iter it5
+            invariant
+                *final(self.api) == *final(old(self).api), pre_ok(s0, s1, res), s0 == old(self).api.st(), res == global_address_reservation.0.0,
+                self.api.st().actor == s1.actor, self.api.st().consumed == s2.consumed,
+                ents == modules.entries(),
+                it5.seq().len() == ents.len(),
+                forall|i: int| 0 <= i < ents.len() ==> *(#[trigger] it5.seq()[i]).1 == ents[i].1,
+                forall|i: int| 0 <= i < ents.len() ==> s2.consumed.contains((#[trigger] ents[i]).1) && module_ok(s1, ents[i]),
+                s1.type_info.contains_key(global_address.0) && s1.type_info[global_address.0] is GlobalAddressPhantom,
+                !self.api.st().type_info.contains_key(main_node),
+                self.api.st().type_info.contains_key(global_address.0)
+                    && (self.api.st().type_info[global_address.0] matches TypeInfoSubstate::Object(gi) && gi.blueprint_info == info0.blueprint_info && gi.object_type is Global),
         @*/
 
         /*@fn radix-engine/src/system/system.rs :: impl<'a, Y: SystemBasedKernelApi> SystemObjectApi<RuntimeError> for SystemService<'a, Y> :: fn get_reservation_address
@@ -918,6 +1205,7 @@ pub mod unit {
             requires
                 reservations_wf(old(self).api.st()),
                 old(self).api.st().consumed.is_empty(),
+                distinct_keys(modules.entries()),
             ensures
                 *final(final(self).api) == *final(old(self).api),
                 final(self).api.st().actor == old(self).api.st().actor,
@@ -946,6 +1234,59 @@ pub mod unit {
                     actor_object_type is SELF && own_object(old(self).api.st().actor) is Some ==> ret is Ok,
                     own_object(old(self).api.st().actor) is None ==> ret == Err::<(NodeId, Option<AttachedModuleId>), RuntimeError>(RuntimeError::SystemError(SystemError::NotAnObject)),
         @closure 1 := || -> (r: RuntimeError) ensures r == RuntimeError::SystemError(SystemError::NotAnObject)
+        @*/
+
+        /*@fn radix-engine/src/system/system.rs :: impl<'a, Y: SystemBasedKernelApi> SystemService<'a, Y> :: fn get_blueprint_info
+        @sig
+            ensures final(self).api.st() == old(self).api.st(),
+                    *final(final(self).api) == *final(old(self).api),
+                    ret matches Ok(bi) ==> info_matches(old(self).api.st(), *node_id, module_id, bi),
+        @*/
+        /*@fn radix-engine/src/system/system.rs :: impl<'a, Y: SystemBasedKernelApi> SystemService<'a, Y> :: fn is_feature_enabled
+        @sig
+            ensures final(self).api.st() == old(self).api.st(),
+                    *final(final(self).api) == *final(old(self).api),
+        @*/
+        /*@fn radix-engine/src/system/system.rs :: impl<'a, Y: SystemBasedKernelApi> SystemService<'a, Y> :: fn get_actor_info
+        @sig
+            ensures final(self).api.st() == old(self).api.st(),
+                    *final(final(self).api) == *final(old(self).api),
+                    ret matches Ok(t) ==> resolves_to(old(self).api.st(), actor_object_type, (t.0, t.1))
+                        && info_matches(old(self).api.st(), t.0, t.1, t.3),
+        @*/
+        /*@fn radix-engine/src/system/system.rs :: impl<'a, Y: SystemBasedKernelApi> SystemService<'a, Y> :: fn get_actor_field_info
+        @no-r5
+        @subst <<panic!("Outer object should not have IfOuterFeature.")>> => <<panic_abort()>> why: this panic site (a blueprint-definition consistency check: a field with Condition::IfOuterFeature on an object without outer object) is modelled as an ABORT -- a diverging env function without contract -- instead of a proof obligation; a panic grants no access, and discharging it would need an assumption tying installed definitions to type infos that has nothing to do with C50
+        @sig
+            ensures final(self).api.st() == old(self).api.st(),
+                    *final(final(self).api) == *final(old(self).api),
+                    ret matches Ok(t) ==> actor_state_node(old(self).api.st(), actor_object_type, t.0)
+                        && (t.3 matches FieldTransience::TransientStatic { default_value } ==> dec::<ScryptoValue>(default_value@) is Some),
+        @closure 1 := || -> (r: RuntimeError)
+        @*/
+        /*@fn radix-engine/src/system/system.rs :: impl<'a, Y: SystemBasedKernelApi> SystemService<'a, Y> :: fn get_actor_collection_partition_info
+        @sig
+            ensures final(self).api.st() == old(self).api.st(),
+                    *final(final(self).api) == *final(old(self).api),
+                    ret matches Ok(t) ==> actor_state_node(old(self).api.st(), actor_object_type, t.0),
+        @closure 1 := || -> (r: RuntimeError)
+        @*/
+        /// the state door for fields: SystemActorApi::actor_open_field (WASM `actor_open_field` lands here)
+        /*@fn radix-engine/src/system/system.rs :: impl<'a, Y: SystemBasedKernelApi> SystemActorApi<RuntimeError> for SystemService<'a, Y> :: fn actor_open_field
+        @sig
+            ensures
+                *final(final(self).api) == *final(old(self).api),
+                same_but_handles(old(self).api.st(), final(self).api.st()),
+                // whatever handle this call opened is on field `field_index` of the actor's own object (SELF) / its outer object (OUTER_OBJECT)
+                forall|h: SubstateHandle| is_new_handle(old(self).api.st(), final(self).api.st(), h) ==>
+                    final(self).api.st().handles[h].2 == SubstateKey::Field(field_index)
+                    && (actor_state_ref(object_handle) matches Ok(r) && actor_state_node(old(self).api.st(), r, final(self).api.st().handles[h].0)),
+                ret matches Ok(h) ==> is_new_handle(old(self).api.st(), final(self).api.st(), h),
+                // any handle value other than 0 / 1 is refused
+                object_handle != ACTOR_STATE_SELF && object_handle != ACTOR_STATE_OUTER_OBJECT
+                    ==> ret == Err::<SubstateHandle, RuntimeError>(RuntimeError::SystemError(SystemError::InvalidActorStateHandle)) && final(self).api.st() == old(self).api.st(),
+        @closure 1 := || -> (r: IndexedScryptoValue)
+        @drop-tail <<let handle = match transient>> #1 => return self.open_field_lock_check_tail(handle, object_handle, field_index, flags);
         @*/
 
         // ---- (4) new_object: blueprint from the ACTOR'S package, instance context from the ACTOR ---------------
@@ -981,7 +1322,7 @@ pub mod unit {
                         && (old(self).api.st().type_info[*node_id] matches TypeInfoSubstate::Object(info)
                             && !allowed_drop(info, old(self).api.st().actor)
                             && e == invalid_drop_error(*node_id, info, old(self).api.st().actor)))),
-        @drop-tail <<let mut dropped_node = self.api.kernel_drop_node(node_id)?;>> #1 => return Ok(dropped_fields_tail(dropped_node));
+        @drop-tail <<let mut dropped_node>> #1 => return Ok(dropped_fields_tail(dropped_node));
         @*/
     }
 }
